@@ -27,7 +27,7 @@ MODS = [M + f for f in (
     "upipe_m3u_reader.c", "upipe_void_source.c", "upipe_even.c", "upipe_trickplay.c", "upipe_play.c", "upipe_stream_switcher.c",
     "upipe_separate_fields.c", "upipe_row_split.c", "upipe_row_join.c", "upipe_ntsc_prepend.c", "upipe_rtp_pcm_pack.c", "upipe_audio_copy.c",
     "upipe_subpic_schedule.c", "upipe_crop.c", "upipe_video_blank.c", "upipe_audio_blank.c", "upipe_sine_wave_source.c",
-    "upipe_blit.c", "upipe_videocont.c", "upipe_audiocont.c", "upipe_audio_split.c", "upipe_audio_merge.c",
+    "upipe_blit.c", "upipe_videocont.c", "upipe_audiocont.c", "upipe_audio_split.c", "upipe_audio_merge.c", "upipe_grid.c",
 )]
 PIPEX = CORE + MODS + [E + "vmock_upump.c", E + "simfd.c"]
 
@@ -404,12 +404,12 @@ CAT_GENERIC2 = ("dejitter", "multicat_probe", "aes_decrypt", "aes_decrypt_clear"
                 "rtp_pcm_pack", "audio_copy", "crop", "video_blank", "audio_blank", "subpic_schedule",
                 "dejitter_sub", "subpic_schedule_sub", "play", "ts_psi_join",
                 "block_to_sound", "rtp_pcm_unpack", "m3u_reader", "row_join", "even", "trickplay", "stream_switcher",
-                "stream_switcher_ml", "blit", "videocont", "audiocont", "audio_split", "audio_merge")
+                "stream_switcher_ml", "blit", "videocont", "audiocont", "audio_split", "audio_merge", "grid")
 CAT_ROWS += list(CAT_GENERIC2)
 # generic rows whose depth differs from (quick 4, thorough 5): input-subpipe rows need one more step (allocate the subpipe); ntsc_prepend moves 720x480 pictures
 CAT_GENERIC_DEPTH = {"dejitter_sub": (5, 6), "subpic_schedule_sub": (5, 6), "play": (5, 6), "ts_psi_join": (5, 6), "ntsc_prepend": (4, 4),
                      "even": (5, 6), "trickplay": (5, 6), "stream_switcher": (6, 6),
-                     "stream_switcher_ml": (5, 6), "audio_merge": (5, 6)}
+                     "stream_switcher_ml": (5, 6), "audio_merge": (5, 6), "grid": (5, 6)}
 # further jobs of a row that start from a non-initial state (seqx --prefix: operation numbers of the OP_ enum of pipex_cat.c) and, for the deep ones,
 # offer a sub-alphabet only (--only): (extra arguments, quick depth, thorough depth). The rows with a reference input and input subpipes need
 # 3 operations before anything can flow (allocate the subpipe, connect the output, define the flow).
@@ -419,6 +419,8 @@ _CONT_ONLY = "0,1,3,7,38,11,10,8,31,29,40"
 #   blit: 33 dispatch(ready pump 0)   14 / 18 / 22 / 26 one value of each option of subpipe 0 (rect, alpha, alpha threshold, z-index)
 CAT_EXTRA = {"blit": [(["--prefix", "29,8,0", "--only", "0,1,3,7,38,33,11,31,14,18,22,26,40"], 4, 5)],
              "audiocont": [(["--prefix", "29,8,0", "--only", _CONT_ONLY], 5, 6)],
+             # grid: grid input and grid output allocated, the output's output connected (30 sub.set_output)
+             "grid": [(["--prefix", "29,29,30"], 4, 5)],
              "videocont": [(["--prefix", "29,8,0", "--only", _CONT_ONLY], 5, 6), (["--prefix", "29,8,0,17", "--only", _CONT_ONLY], 5, 6)]}
 # rows left out of C20: the sources start on any control command, a getter included
 C20_EXCLUDED = ("void_source", "sine_wave_source")
